@@ -106,11 +106,11 @@ _Q_MC = [("quant", "MC_Quantizer", "MC_Quantizer.cfg", QT), ("quant-big", "MC_Qu
 _Q_SWEEP = ("quant", "sweep", QT, {"thorough": 16})
 PROPS.update({
     "C07": {"module": "quant", "mc": _Q_MC, "traces": [("quant", "hyst", QT), _Q_SWEEP]},
-    "C08": {"module": "quant", "mc": _Q_MC, "traces": [_Q_SWEEP, ("quant", "hyst", QT)],
+    "C08": {"module": "quant", "mc": _Q_MC, "traces": [_Q_SWEEP, ("quant", "boundaries", QT), ("quant", "hyst", QT)],
             "rule": "distinct scales swept on fresh quantizers (run-length compressed input->note map); thorough: all "
                     "4095 scales x all 10,000,001 microvolt inputs"},
     "C09": {"module": "quant", "mc": _Q_MC, "traces": [("quant", "hyst", QT)]},
-    "C19": {"module": "quant", "mc": _Q_MC, "traces": [("quant", "hyst", QT), _Q_SWEEP]},
+    "C19": {"module": "quant", "mc": _Q_MC, "traces": [("quant", "hyst", QT), _Q_SWEEP, ("quant", "boundaries", QT)]},
 })
 
 _R_MC = [("ribbon", "MC_Ribbon", "MC_Ribbon.cfg", QT), ("ribbon-real", "MC_Ribbon", "MC_Ribbon_real.cfg", QT)]
@@ -121,7 +121,7 @@ PROPS.update({
 })
 
 _G_MC = [("glide", "MC_Glide", "MC_Glide.cfg", QT)]
-_G_TR = [("glide", "sched", QT), ("glide", "steps", QT), ("glide", "deadband", QT)]
+_G_TR = [("glide", "sched", QT), ("glide", "steps", QT), ("glide", "deadband", QT), ("glide", "extreme", QT)]
 PROPS.update({
     "C13": {"module": "glide", "mc": _G_MC, "traces": _G_TR,
             "rule": "distinct (sample rate, requested time) settings exercised; every logged sample evaluates the "
@@ -143,7 +143,7 @@ PROPS.update({
         "mc": [("adsr-live", "MC_Adsr", "MC_Adsr_live.cfg", QT), ("adsr-live-big", "MC_Adsr", "MC_Adsr_live_big.cfg", T),
                ("adsr", "MC_Adsr", "MC_Adsr.cfg", T)],
         "traces": [("adsr", "extreme", QT), ("adsr", "durations", QT), ("lfo", "extreme", QT), ("glide", "extreme", QT),
-                   ("ribbon", "extreme", QT), ("quant", "hyst", QT), ("quant", "sweep", QT), ("midi", "framing", QT),
+                   ("ribbon", "extreme", QT), ("glide", "rates", QT), ("quant", "hyst", QT), ("quant", "sweep", QT), ("midi", "framing", QT),
                    ("midi", "short", QT), ("params", "floats", QT), ("params", "ints", QT), ("glide", "sched", QT),
                    ("adsr", "random", QT), ("lfo", "freq", QT), ("ribbon", "press", QT)],
         "rule": "calls executed in the overflow-checks + debug-assertions build inside catch_unwind, over the argument "
